@@ -418,10 +418,11 @@ func (b *tableCompactionBuilder) flush() error {
 
 func (b *tableCompactionBuilder) cleanup() error {
 	if b.tw != nil {
-		if err := b.tw.drop(); err != nil {
-			return err
-		}
+		// The writer is unusable once dropped, whether or not the
+		// partial table could be removed.
+		err := b.tw.drop()
 		b.tw = nil
+		return err
 	}
 	return nil
 }
